@@ -191,9 +191,25 @@ void run_export_case(const json& c, const std::string& workdir, std::vector<json
         else if (o == "wb") logged(log, i, "wb", [&](json& e) { e["ret"] = x->write_block(); });
         else if (o == "setactive") logged(log, i, "setactive", [&](json& e) { e["ret"] = x->set_active_block_parameters(op.at("idx").get<index_t>()); });
         else if (o == "addbp") logged(log, i, "addbp", [&](json& e) {
-            BlockParameters bp = j2bp(op.at("bp"));
-            bps_json.push_back(op.at("bp"));
-            e["ret"] = x->add_block_parameters(bp);
+            std::string how = op.value("how", std::string("plain"));
+            if (how == "clone_active") {
+                // "clone the active set": the argument is an element of the exporter's own parameter vector
+                bps_json.push_back(json(bps_json.at(x->get_active_block_parameters())));
+                e["ret"] = x->add_block_parameters(x->get_active_block_parameters_ref());
+            }
+            else {
+                BlockParameters bp = j2bp(op.at("bp"));
+                bps_json.push_back(op.at("bp"));
+                e["ret"] = x->add_block_parameters(bp);
+                if (how == "twice") {
+                    // the same object used as a template again, with one member changed
+                    json second = op.at("bp");
+                    second["max"] = second.at("max").get<uint64_t>() + 1;
+                    bp.storage_parameters.max_block_items += 1;
+                    bps_json.push_back(second);
+                    e["ret"] = x->add_block_parameters(bp);
+                }
+            }
         });
         else if (o == "edithints") logged(log, i, "edithints", [&](json& e) {
             BlockParameters& bp = x->get_active_block_parameters_ref();
